@@ -10,7 +10,7 @@ import z3
 
 from .sym import (SV, State, Raise, Unsupported, NONE, MARKER, mk_int,
                   mk_bool, fresh, INT, BOOL, KS, ELEM_SORT, ELEM_KIND,
-                  KIND_SORT, arr_sort)
+                  KIND_SORT, arr_sort, US)
 
 ASSUMPTIONS = [
     "A1 Python semantics as encoded by pyvc/engine.py: ints are mathematical "
@@ -58,7 +58,9 @@ GHOST_FIELDS = {"$changed": BOOL, "$cls": INT,
                 # walk, how many items they have yielded, whether they yield pairs
                 "$it_seq": INT, "$it_vals": INT, "$it_pos": INT, "$it_pairs": BOOL,
                 # ghost: the set of keys a K-list was built from by append
-                "$elems": KSET}
+                "$elems": KSET,
+                # a sequence object that is a Python tuple (immutable) rather than a list
+                "$istuple": BOOL}
 
 CLASS_IDS = {"Bucket": 1, "Set": 2, "Tree": 3, "TreeSet": 4, "_TreeItem": 5,
              "_SetIteration": 6, "_TreeItems": 7, "Length": 8, "Checker": 9}
@@ -196,9 +198,10 @@ class Engine:
             self.hset(st, "$changed", r, z3.BoolVal(False))
         return r
 
-    def new_list(self, st, elem, content, length, elems=None):
+    def new_list(self, st, elem, content, length, elems=None, is_tuple=False):
         r = self.new_ref(st)
         self.lset(st, r, elem, content, length)
+        self.hset(st, "$istuple", r, z3.BoolVal(bool(is_tuple)))
         if elem == "K":
             # ghost key set of the list: exact for lists grown by append from
             # empty, unknown otherwise
@@ -220,6 +223,14 @@ class Engine:
         for i in range(0, self.ground + 3):
             arr = z3.Store(arr, i, z3.substitute(body, (j, z3.IntVal(i))))
         return arr
+
+    def u_typed(self, st, val, kind, what):
+        """Obligation: a state element used as a key/value/reference is one."""
+        if val.kind != "U" or kind == "U":
+            return
+        rec = {"K": US.is_UK, "V": US.is_UV, "int": US.is_UV, "ref": US.is_UR}.get(kind)
+        if rec is not None:
+            self.oblige(st, "%s:state-element-is-%s" % (what, kind), rec(val.z))
 
     def wrap(self, kind, z, x=None):
         return SV(kind, z, x)
@@ -283,6 +294,26 @@ class Engine:
         elif kind == "any":
             if val.z is not None:
                 return val.z
+        elif kind == "U":
+            if val.kind == "U":
+                return val.z
+            if val.kind == "K":
+                return US.UK(val.z)
+            if val.kind in ("V", "int"):
+                return US.UV(val.z)
+            if val.kind == "ref":
+                return US.UR(val.z)
+            if val.kind == "none":
+                return US.UR(z3.IntVal(0))
+        if val.kind == "U":
+            # reading a state element as a key / value / reference: Python does
+            # no check here; the caller of coerce emits the typing obligation
+            if kind == "K":
+                return US.uk(val.z)
+            if kind in ("V", "int"):
+                return US.uv(val.z)
+            if kind == "ref":
+                return US.ur(val.z)
         raise Unsupported("cannot store %s as %s" % (val.kind, kind))
 
     # ------------------------------------------------------------ truthiness
